@@ -5,34 +5,41 @@ Import ListNotations.
 Require Import Nib.C16.Model Nib.C16.Spec.
 
 (** the world a history starts from: sudoers written at setup, authz grants saved at setup *)
-Record world := { w_root : addr; w_contracts : list addr; w_grants : list grant }.
+(** [w_raw]: the sudoers were imported from a genesis section, i.e. stored as given (any order,
+    duplicates) until the first accepted EditSudoers rewrites the list in canonical form *)
+Record world := { w_root : addr; w_contracts : list addr; w_grants : list grant; w_raw : bool }.
 
 Definition case : Type := world * list (list msg * obs).
 
 (** model vs implementation for one tx, from model state [s] *)
-Definition step_mismatch (g : list grant) (s : st) (tx : list msg) (o : obs) : bool * st :=
+Definition is_edit_sudoers (m : msg) : bool := match m with EditSudoers _ _ _ _ => true | _ => false end.
+
+Definition step_mismatch (raw : bool) (g : list grant) (s : st) (tx : list msg) (o : obs) : bool * st :=
   let '(s', ok) := deliver g s tx in
   let bad :=
     negb (Bool.eqb ok (o_ok o)) ||
     negb (root s' =? o_root o) ||
     negb (list_eqb (contracts s') (o_contracts o)) ||
-    (* the sudo store holds exactly the sudoers value: digest equal iff value equal *)
-    negb (Bool.eqb (sudoers_eqb s s') (o_same_sudo o)) ||
+    (* the sudo store holds exactly the sudoers value: digest equal iff value equal — except that an
+       accepted EditSudoers may rewrite a genesis-imported list into canonical form *)
+    (negb (sudoers_eqb s s') && o_same_sudo o) ||
+    (sudoers_eqb s s' && negb (o_same_sudo o) &&
+     negb (raw && ok && existsb is_edit_sudoers (leaves_tx tx))) ||
     (* a store the model did not write must have an unchanged digest *)
     ((w_oracle s' =? w_oracle s) && negb (o_same_oracle o)) ||
     ((w_infl s' =? w_infl s) && negb (o_same_infl o)) ||
     ((w_meta s' =? w_meta s) && negb (o_same_meta o)) in
   (bad, s').
 
-Fixpoint trace_mismatch (g : list grant) (s : st) (t : list (list msg * obs)) : bool :=
+Fixpoint trace_mismatch (raw : bool) (g : list grant) (s : st) (t : list (list msg * obs)) : bool :=
   match t with
   | [] => false
-  | (tx, o) :: r => let '(bad, s') := step_mismatch g s tx o in bad || trace_mismatch g s' r
+  | (tx, o) :: r => let '(bad, s') := step_mismatch raw g s tx o in bad || trace_mismatch raw g s' r
   end.
 
 Definition mismatch (c : case) : bool :=
   let w := fst c in
-  trace_mismatch (w_grants w) (mk_st (w_root w) (normalize (w_contracts w))) (snd c).
+  trace_mismatch (w_raw w) (w_grants w) (mk_st (w_root w) (normalize (w_contracts w))) (snd c).
 
 Definition violates (c : case) : bool :=
   let w := fst c in
